@@ -140,7 +140,11 @@ func main() {
 	store := &kf.Store{}
 	if *triage == "" {
 		var err error
-		store, err = kf.Load("/verif", id)
+		kfRoot := os.Getenv("VF_ROOT")
+		if kfRoot == "" {
+			kfRoot = "/verif"
+		}
+		store, err = kf.Load(kfRoot, id)
 		if err != nil {
 			fmt.Fprintln(os.Stderr, "wx:", err)
 			os.Exit(2)
